@@ -7,6 +7,7 @@ open Yorkie Yorkie.Driver Yorkie.Access
 
 structure St where
   cfg : Cfg := {}
+  auth : AuthSt := {}
 
 def parseSvc : String → Option Svc
   | "YorkieService" => some .yorkie
@@ -56,8 +57,38 @@ def checkProcs (toks : List String) : String :=
   if missing.isEmpty && extra.isEmpty then s!"procs ok n={toks.length}"
   else s!"procs MISMATCH not-in-descriptors={missing} not-in-source-constants={extra}"
 
+def parseToken : String → Option Token
+  | "none" => some .none | "ta" => some .ta | "tb" => some .tb | "terr" => some .terr
+  | _ => none
+
+def parseHome : String → Option Proj
+  | "A" => some .A | "B" => some .B
+  | _ => none
+
+/-- `AUTH proc=<p> home=<A|B> token=<t>`: the own-ids request of the home project with its API
+key and that token, against the current auth state (webhooks on/off, verdict cache) -/
+def authLine (s : St) (proc : String) (home : Proj) (tok : Token) : St × String :=
+  match handlerOf .yorkie proc with
+  | none => (s, "unimplemented consulted=0 victim=unchanged")
+  | some h =>
+    let w := worldFor h
+    let out := execA s.cfg w .yorkie proc h (.apiKey home) tok (homeReq home) s.auth
+    let v := if victimChanged s.cfg [home] w out.2.1 then "CHANGED" else "unchanged"
+    ({ s with auth := { out.2.2.1 with now := out.2.2.1.now + 1 } },
+     s!"{out.1.show} consulted={out.2.2.2} victim={v}")
+
 def step (s : St) (toks : List String) : St × List String :=
   match toks with
+  | ["WEBHOOK", "on"] => ({ s with auth := { on := true } }, ["webhook on"])
+  | ["WEBHOOK", "off"] => ({ s with auth := {} }, ["webhook off"])
+  | ["WEBHOOK", "flush"] => ({ s with auth := { s.auth with cache := [] } }, ["webhook flush"])
+  | ["WEBHOOK", "expire"] => ({ s with auth := { s.auth with cache := [] } }, ["webhook expire"])
+  | "AUTH" :: rest =>
+    match parseHome (arg rest "home"), parseToken (arg rest "token") with
+    | some home, some tok =>
+      let (s', l) := authLine s (arg rest "proc") home tok
+      (s', [l])
+    | _, _ => (s, ["bad-line"])
   | "CONFIG" :: rest =>
     ({ s with cfg := { udp := arg rest "udp" == "true", third := arg rest "third" == "true" } }, ["config ok"])
   | "PROCS" :: rest => (s, [checkProcs rest])
